@@ -66,6 +66,24 @@ CHECKS = {
         text="25 positions, 625 ordered pairs x 6 operators, trichotomy, transitivity on all triples, 25 ranges and 50 locations pairwise, unrelated and cross-class operands on both sides, reprs.",
         note="Decided on a 5-value grid per coordinate.",
         ref="3/C20"),
+    "C04": dict(
+        engine="BISIM",
+        technique="exhaustive product-graph walk metamodel x imported Python package (every declaration and flattened property x facet), both directions",
+        text="Every structure/enum/alias/and-type and every flattened property is compared with the imported package: attribute set bijection, attribute name, required-ness, annotation as typing object, literal default, validator verdict table; reverse walk over every class/enum of the module; duplicate definitions in the text of types.py.",
+        note="Trusted: MM mapping table (Appendix B); validators judged on clear-cut values.",
+        ref="3/C04"),
+    "C05": dict(
+        engine="BISIM",
+        technique="exhaustive pairwise comparison of every top-level statement/item of the committed generated files with the output of the real plugins (single configuration)",
+        text="python and rust plugins are run through the real CLI; all 795 statements of types.py (AST) and all items of lib.rs (after rustfmt, plus byte equality) compared in both directions. Degenerate exploration (one configuration), total enumeration of items.",
+        note="rustfmt stands for cargo fmt; Python formatting modelled by AST equality with docstring whitespace normalised.",
+        ref="3/C05"),
+    "C09": dict(
+        engine="BISIM",
+        technique="exhaustive enumeration of methods x table facets and of registry names, both directions, on the imported package",
+        text="95 methods x {entry, request/response class, params, registration options, default method, envelope annotations, constant, direction}; no extra keys; every protocol type object in ALL_TYPES_MAP under its own name and vice versa; all attrs fields resolved after first get_converter().",
+        note="Class-name rule from the documentation (typeName else UpperCamel of method).",
+        ref="3/C09"),
 }
 
 PENDING_REASON = "check not built yet in this session (planned, see DESIGN.md section 3); not claimed until it exists"
@@ -120,6 +138,7 @@ NOT_APPLICABLE = {}
 ENGINES = [
     {"name": "MM", "path": "lspverif/mm.py", "serves_properties": [], "kind_free_text": "reference model of the LSP metamodel (oracle)"},
     {"name": "VSE", "path": "lspverif/vse.py", "serves_properties": ["C01", "C02", "C03", "C10", "C11", "C13", "C14", "C15"], "kind_free_text": "deviation-bounded exhaustive value-space explorer over the metamodel grammar"},
+    {"name": "BISIM", "path": "lspverif/img_py.py", "serves_properties": ["C04", "C05", "C09"], "kind_free_text": "product-graph exploration metamodel x generated artefact, simulation checked in both directions"},
     {"name": "GRID", "path": "lspverif/props/c12.py", "serves_properties": ["C12", "C20"], "kind_free_text": "exhaustive boundary-grid enumeration on the real classes and validators"},
 ]
 
